@@ -98,6 +98,18 @@ CLAIMED = {
    design_ref="DESIGN.md section 6, C08",
    note="Trusted: Coq kernel, extraction, OCaml driver, Rust harness, Python rose-tree specification. File front ends (VCD/FST/GHW) reach the builder through C09/C10/C11.",
    technique="correspondence: Coq model extracted to OCaml vs real builder (exhaustive small scope) + rose-tree oracle"),
+ "C16": dict(
+   category="translation_validation",
+   text="The Gallina model of detect_file_format (is_vcd/read_command matcher, the dependency's FST block walk with its i64 seek "
+        "arithmetic, read_ghw_header) is run, extracted to OCaml, against viewers::open_and_detect_file_format under a watchdog on every "
+        "string of length <= 1 and a third (thorough: all) of length 2, first byte x corner values of the block length field, `$`+word "
+        "forms, truncated/corrupted magics, generated VCDs and all corpus files; oracle: never panic/hang outside the two recorded "
+        "classes of the FST block walk (D13 cycle = hang, D17 overflow = panic; both reproduced by the model, which found D13 through its "
+        "termination argument), files classified by their real format, data beginning like none of the formats is Unknown. "
+        "detect_total is refuted on this tree (known findings), detect_classifies is not yet proved, hence the level.",
+   design_ref="DESIGN.md section 6, C16",
+   note="Trusted: Coq kernel, extraction, OCaml driver, Rust harness + watchdog, Python class predicate. Seeks to offsets in (2^40, 2^63) are excluded (file-system dependent EINVAL).",
+   technique="correspondence: Coq model (incl. dependency's block walk) extracted to OCaml vs real detection + totality/classification oracle"),
 }
 
 NOT_YET = {}
